@@ -38,4 +38,10 @@ META.update({
  "C06": {"text": "The N x view grid is enumerated completely (exhaustive: true in the evidence) at boundary heights incl. the int32 and uint32 edges, against an independent reference; rotation properties are checked by marking visited indices.",
          "design_ref": "DESIGN.md 4/C06", "note": "Trusted base: the reference arithmetic in the test (search for F, int64/big.Int for the primary). Heights are sampled at boundaries + random draws, not enumerated.", "technique": "exhaustive generation of the finite N x view domain + rapid-drawn heights; differential oracle against a reference implementation"},
 })
+META.update({
+ "C14": {"text": "Metamorphic relation over generated single-node scripts: shifting the injected clock (and the absolute previous-block timestamp) by a constant leaves every payload, timer duration and accepted block unchanged up to that shift, and re-running later on the same virtual clock is bit-identical (no wall-clock input).",
+         "design_ref": "DESIGN.md 4/C14", "note": "Trusted base: harness value types are clock-free; scripts refer to the node's own outputs only, so both runs follow the same script exactly when the node behaves the same.", "technique": "metamorphic property-based testing (rapid): clock-shift relation between paired runs"},
+ "C15": {"text": "Instrumented NewPrepareRequest / GetVerified / NewBlockFromContext / Broadcast: the proposal equals the context values and the pool in order, timestamp > previous and = truncated clock whenever that is larger, and the primary's own block carries the same values - over drawn clocks, increments, pools, views and backward clock steps.",
+         "design_ref": "DESIGN.md 4/C15", "note": "Trusted base: the monitor's own timestamp arithmetic.", "technique": "property-based testing (rapid) of one real instance with scripted peers; direct oracle on constructor arguments"},
+})
 NOT_APPLICABLE = []
